@@ -190,11 +190,97 @@ static void run_mut(Rng &r)
     if(nm && g_counters["verdict.accepted"] != acc0) count("mut.accepted_after_mutation");
 }
 
+// ---------------------------------------------------------------- coverage-guided (libFuzzer drives check_buffer)
+#ifdef VH_FUZZ
+#include <sys/stat.h>
+#include <dirent.h>
+extern "C" int LLVMFuzzerRunDriver(int *argc, char ***argv, int (*cb)(const uint8_t *, size_t));
+static int fuzz_one(const uint8_t *data, size_t n)
+{
+    if(n > 512) return 0;
+    uint64_t k = g_evaluations < g_args.count ? g_evaluations : g_args.count - 1;
+    g_case_index = (int64_t)(g_args.from + k);
+    g_progress.fetch_add(1, std::memory_order_relaxed);
+    g_cur_data = data; g_cur_size = n;
+    g_desc = "bytes=" + hexs(data, n);
+    distinct(hash_bytes(data, n));
+    if((g_evaluations & 0xfff) == 0) sample(jstr(g_desc.substr(0, 300)));
+    count("fuzz.inputs");
+    size_t acc0 = g_counters["verdict.accepted"];
+    check_buffer(data, n, {});
+    if(g_counters["verdict.accepted"] != acc0) count("fuzz.accepted");
+    ++g_evaluations;
+    g_cur_data = 0;
+    return 0;
+}
+static std::string g_corpus_dir;
+static void fuzz_atexit()
+{
+    if(g_clean_exit) return;
+    // libFuzzer leaves through exit(0) once -runs is exhausted
+    if(DIR *d = opendir(g_corpus_dir.c_str())) {
+        while(struct dirent *e = readdir(d)) if(e->d_name[0] != '.') unlink((g_corpus_dir + "/" + e->d_name).c_str());
+        closedir(d);
+        rmdir(g_corpus_dir.c_str());
+    }
+    g_case_index = -1;
+    finish();
+}
+static int run_fuzz(int argc, char **argv)
+{
+    begin(argc, argv);
+    if(!g_args.hex.empty()) {   // replay of one recorded input
+        std::vector<unsigned char> b;
+        for(size_t i = 0; i + 1 < g_args.hex.size(); i += 2) b.push_back((unsigned char)strtoul(g_args.hex.substr(i, 2).c_str(), 0, 16));
+        g_case_index = (int64_t)g_args.from;
+        g_desc = "bytes=" + hexs(b.data(), b.size());
+        describe_case(g_desc);
+        g_cur_data = b.data(); g_cur_size = b.size();
+        check_buffer(b.data(), b.size(), {});
+        g_cur_data = 0;
+        ++g_evaluations;
+        g_case_index = -1;
+        finish();
+        return 0;
+    }
+    // seed corpus: valid messages and bundles from the shared generator
+    g_corpus_dir = g_args.out + ".corpus";
+    mkdir(g_corpus_dir.c_str(), 0755);
+    Rng r(mix(mix(g_args.seed, 0xC07F), g_args.from));
+    for(int i = 0; i < 192; ++i) {
+        gen::Msg m = gen::gen_msg(r, 6, true);
+        if(m.addr[0] != '/') m.addr[0] = '/';
+        for(auto &v : m.vals) if(v.blob.size() > 64) v.blob.resize(64);
+        ref::bytes b = m.encode();
+        if(i % 6 == 5) { gen::Msg m2 = gen::gen_msg(r, 3, true); b = ref::bundle(r.next(), {b, m2.encode()}); }
+        if(b.size() > 512) continue;
+        FILE *f = fopen((g_corpus_dir + fmt("/seed%03d", i)).c_str(), "wb");
+        if(f) { fwrite(b.data(), 1, b.size(), f); fclose(f); count("fuzz.corpus_seeds"); }
+    }
+    atexit(fuzz_atexit);
+    std::vector<std::string> a = {argv[0], fmt("-runs=%llu", (unsigned long long)g_args.count),
+        fmt("-seed=%u", (unsigned)(mix(g_args.seed, g_args.from) % 0x7fffffff + 1)), "-max_len=512", "-len_control=0",
+        "-handle_segv=0", "-handle_bus=0", "-handle_abrt=0", "-handle_ill=0", "-handle_fpe=0", "-handle_int=0", "-handle_term=0",
+        "-handle_xfsz=0", "-handle_usr1=0", "-handle_usr2=0", "-timeout=0", "-rss_limit_mb=0", "-detect_leaks=0", "-reload=0",
+        "-verbosity=1", "-print_final_stats=1", "-artifact_prefix=" + g_corpus_dir + "/", g_corpus_dir};
+    std::vector<char *> av;
+    for(auto &x : a) av.push_back((char *)x.c_str());
+    av.push_back(0);
+    int ac = (int)a.size();
+    char **avp = av.data();
+    LLVMFuzzerRunDriver(&ac, &avp, fuzz_one);
+    exit(0);
+}
+#endif
+
 int main(int argc, char **argv)
 {
     GuardBuf g(4096);
     G = &g;
     parse_args(argc, argv);
+#ifdef VH_FUZZ
+    if(g_args.mode == "fuzz") return run_fuzz(argc, argv);
+#endif
     bool exh = g_args.mode == "exh";
     return main_loop(argc, argv, 0xC07, [exh](uint64_t i, Rng &r) {
         if(exh) run_exh(i); else run_mut(r);
